@@ -122,7 +122,7 @@ def s_memory(rng, nval):
     return _mk(prog, "implicit_memory", rng, nval, edges={"e": [0, 1]}, memory=True)
 
 
-def s_many(rng, nval, sizes=(30, 45)):
+def s_many(rng, nval, sizes=(30, 45, 60)):
     """More untyped values than the 26 letter signals; every value has its own private consumer so
     that the listed transitive-merge defect cannot interfere."""
     types = gen.Types(rng, ("far", "item", "fluid", "ns"))
@@ -132,6 +132,11 @@ def s_many(rng, nval, sizes=(30, 45)):
     for j, t in enumerate(explicit_head):
         prog.append(["input", "h%d" % j, t, rng.randint(1, 9)])
         prog.append(["sig", "hh%d" % j, ["p", ["b", "+", ["v", "h%d" % j], ["n", 1]], types.fresh()]])
+    # explicit uses of virtual signals whose names do not start with "signal-" (arrows, shapes): they sit deep in the
+    # allocation pool (from about the 45th allocation on) and must be skipped like every other name the program uses
+    for j, t in enumerate(rng.sample(gen.NS_VIRT, k=rng.randint(2, 6))):
+        prog.append(["input", "ns%d" % j, t, rng.randint(1, 9)])
+        prog.append(["sig", "nn%d" % j, ["p", ["b", "+", ["v", "ns%d" % j], ["n", 2]], types.fresh()]])
     for i in range(n):
         prog.append(["input", "w%d" % i, None, rng.randint(-9, 9)])
         if i < 40:
@@ -224,7 +229,7 @@ def s_dup_untyped(rng, nval):
                edges={"iron": [thr - 1, thr, thr + 1, 0, 200], "cop": [0, 1, 4, 5, 6, 16, 20]}, memory=memory)
 
 
-STRATA = [(s_mix, 6), (s_mix_head, 4), (s_memory, 2), (s_many, 1), (s_bundle_head, 3), (s_named_like_signal, 2), (s_dup_untyped, 3)]
+STRATA = [(s_mix, 6), (s_mix_head, 4), (s_memory, 2), (s_many, 2), (s_bundle_head, 3), (s_named_like_signal, 2), (s_dup_untyped, 3)]
 
 
 def gen_cases(tier, seed):
